@@ -686,6 +686,7 @@ type Client struct {
 	ReactN          func(ctx context.Context, tok string, delayMs int) error `notify:"true"`
 	SubInt          func(ctx context.Context, tok string, n int, mode int) (<-chan int, error)
 	SubFloat        func(ctx context.Context, tok string, n int, nanAt int) (<-chan float64, error)
+	SubMixed        func(ctx context.Context, tok string, n int, bigBytes int) (<-chan string, error)
 	RevSubN         func(ctx context.Context, tok string, n int, everyMs int, lingerMs int) (string, error)
 	SubStr          func(ctx context.Context, tok string, n int, mode int) (<-chan string, error)
 	SubBytes        func(ctx context.Context, tok string, n int, mode int) (<-chan []byte, error)
@@ -837,6 +838,17 @@ func (s *Svc) SubFloat(ctx context.Context, tok string, n int, nanAt int) (<-cha
 			return math.NaN()
 		}
 		return float64(i)
+	})
+}
+
+// SubMixed streams n strings "<tok>:<i>"; every fourth one is padded to bigBytes.
+func (s *Svc) SubMixed(ctx context.Context, tok string, n int, bigBytes int) (<-chan string, error) {
+	return typed(s, ctx, "SubMixed", tok, n, SGoroutine, func(i int) string {
+		v := fmt.Sprintf("%s:%d", tok, i)
+		if i%4 == 3 {
+			v += ":" + strings.Repeat("B", bigBytes)
+		}
+		return v
 	})
 }
 func (s *Svc) SubStr(ctx context.Context, tok string, n int, mode int) (<-chan string, error) {
